@@ -268,6 +268,8 @@ KW_VALUE = {'reverse': st.booleans(), 'flag': st.booleans(), 'neg': st.booleans(
 @st.composite
 def fn_cases(draw):
     idx = draw(st.integers(0, len(POOL) - 1))
+    if draw(st.integers(0, 19)) == 0:
+        idx = NAMES.index('async')       # coroutine functions go through their own call site
     name, _, (lo, hi), kws, kind, _ = POOL[idx]
     via = draw(st.sampled_from(VIAS + ['ctor1', 'ctor1'] if lo == 0 else
                                ['ctor3', 'ctor3', 'ctor2', 'decor', 'decor', 'raw']))
@@ -287,7 +289,8 @@ def fn_cases(draw):
         elif kws:
             # named parameters which are not already bound positionally
             free = kws[max(0, n_pos - lo):] if hi > lo else kws
-            for k in draw(st.lists(st.sampled_from(free), max_size=len(free), unique=True)
+            for k in draw(st.lists(st.sampled_from(free), min_size=draw(st.integers(0, 1)),
+                                   max_size=len(free), unique=True)
                           if free else st.just([])):
                 kwargs[k] = draw(KW_VALUE.get(k, KIND[kind]))
         if name == 'm_pair' and via != 'ctor2' and draw(st.booleans()):
